@@ -4,6 +4,7 @@ package c03
 import (
 	"encoding/hex"
 	"fmt"
+	"math/big"
 	"reflect"
 	"sort"
 	"strings"
@@ -57,7 +58,9 @@ func domains(chain, typ string, thorough bool) map[string][]interface{} {
 			"EventNonce": {uint64(2), uint64(20)}, "BlockHeight": {uint64(102), uint64(1)}, "BatchNonce": {uint64(1), uint64(2), uint64(12)}, "TokenContract": {a("fx-token"), a("tok2")},
 		}
 	case "OracleSetUpdated":
-		m := func(p uint64, l string) cctypes.BridgeValidator { return cctypes.BridgeValidator{Power: p, ExternalAddress: a(l)} }
+		m := func(p uint64, l string) cctypes.BridgeValidator {
+			return cctypes.BridgeValidator{Power: p, ExternalAddress: a(l)}
+		}
 		return map[string][]interface{}{
 			"EventNonce": {uint64(2), uint64(20)}, "BlockHeight": {uint64(102), uint64(1)}, "OracleSetNonce": {uint64(1), uint64(2), uint64(0)},
 			"Members": {[]cctypes.BridgeValidator{m(1000, "m1")}, []cctypes.BridgeValidator{m(1000, "m2")}, []cctypes.BridgeValidator{m(10, "m1")}, []cctypes.BridgeValidator{m(1000, "m1"), m(1000, "m2")}, []cctypes.BridgeValidator{m(1000, "m2"), m(1000, "m1")}},
@@ -245,6 +248,53 @@ func run(thorough bool) func(shard, shards int, deadline time.Time) *explore.Res
 				}
 				res.Extra["distinct_nontrivial"] += float64(len(buckets))
 				res.Counters["hash-buckets/"+typ] += len(buckets)
+				// ---- half 2a: claims that differ only in fields outside the hash (the chain name written into the claim itself;
+				// the bridger is each voter's own) are tallied together - then the effect must not depend on whose copy
+				// crosses the threshold: both orders and the all-identical control end in the same state
+				{
+					other := "bsc"
+					if chain == "bsc" {
+						other = "eth"
+					}
+					alt := clone(base)
+					set(alt, "ChainName", other)
+					if safeValidate(alt) == nil && safeValidate(base) == nil && hex.EncodeToString(alt.ClaimHash()) == hex.EncodeToString(base.ClaimHash()) {
+						effect := func(first, second cctypes.ExternalClaim) (map[string][]byte, string) {
+							br := world.Branch(ctx)
+							r1 := scen.Vote(w, br, chain, os[0], first)
+							r2 := scen.Vote(w, br, chain, os[1], second)
+							res.Transitions += 2
+							note := fmt.Sprintf("votes %s / %s, observed=%v", r1, r2, k.GetLastObservedEventNonce(br) == 2)
+							if _, parked := k.GetPendingExecuteClaim(br, 2); parked {
+								er := w.CallABI(br, w.A("u2"), cctypes.GetAddress(), cctypes.GetABI(), nil, 2_000_000, "executeClaim", chain, big.NewInt(2))
+								note += fmt.Sprintf(", execution %s", er)
+							}
+							_, stillParked := k.GetPendingExecuteClaim(br, 2)
+							note += fmt.Sprintf(", still parked=%v", stillParked)
+							d := w.Dump(br)
+							d["(claim 2 still parked)"] = []byte(fmt.Sprint(stillParked))
+							for key := range d { // the attestation and a parked claim keep a voter's copy of the claim: copies, not effects
+								if strings.HasPrefix(key, chain+"/"+hex.EncodeToString(cctypes.OracleAttestationKey)) || strings.HasPrefix(key, chain+"/"+hex.EncodeToString(cctypes.PendingExecuteClaimKey)) || strings.HasPrefix(key, "evm/") || strings.HasPrefix(key, "acc/") || strings.HasPrefix(key, "feemarket/") {
+									delete(d, key)
+								}
+							}
+							return d, note
+						}
+						control, cn := effect(base, base)
+						for _, order := range []string{"variant crosses the threshold", "variant votes first"} {
+							first, second := base, alt
+							if order == "variant votes first" {
+								first, second = alt, base
+							}
+							got, gn := effect(first, second)
+							res.Outcomes["same-hash-pair/compared"]++
+							if d := world.DiffDumps(control, got); len(d) > 0 {
+								addViol(fmt.Sprintf("C03/effect-depends-on-which-vote-crosses-the-threshold/ChainName/%s", typ), "effect-is-the-one-voted-for",
+									fmt.Sprintf("%s/%s: two claims with the same hash (they differ in the chain name written into the claim: %q vs %q), %s: the resulting state differs from the state after two identical votes (%s | control: %s): %v", chain, typ, chain, other, order, gn, cn, d[:min(4, len(d))]), []string{typ + " " + order})
+							}
+						}
+					}
+				}
 				// ---- half 2: schedules in the real keeper: o1 votes A, o2 votes B for every single-field-different pair
 				for _, f := range fields {
 					for _, v := range dom[f] {
@@ -319,4 +369,11 @@ func init() {
 			}
 		},
 	})
+}
+
+func min(a, b int) int {
+	if a < b {
+		return a
+	}
+	return b
 }
